@@ -55,8 +55,12 @@ func (m *ModeBuilder) Build(errs *errlogger.ErrLogger, fset *gotoken.FileSet) *M
 
 	mergeTransitions(d)
 
+	owner := m.ruleOfStates()
 	for _, state := range d.States {
 		state.Data = m.pickAction(errs, fset, state)
+		if state.Accept && state.NonGreedy {
+			state.NonGreedy = nonGreedyRuleComplete(owner, state)
+		}
 	}
 
 	if errs.HasError() {
@@ -67,6 +71,48 @@ func (m *ModeBuilder) Build(errs *errlogger.ErrLogger, fset *gotoken.FileSet) *M
 		Name: m.Name,
 		DFA:  d,
 	}
+}
+
+// ruleOfStates maps every NFA state to the index of the rule it was built
+// for. The NFAs of different rules share no states.
+func (m *ModeBuilder) ruleOfStates() map[*nfa.State]int {
+	owner := make(map[*nfa.State]int)
+	for i, rule := range m.Rules {
+		pending := stack.Stack[*nfa.State]{}
+		pending.Push(rule.B)
+		for !pending.Empty() {
+			s := pending.Pop()
+			if _, ok := owner[s]; ok {
+				continue
+			}
+			owner[s] = i
+			s.Transitions.ForEach(func(_ any, toStates *array.Array[*nfa.State]) {
+				for _, toState := range toStates.Elements() {
+					pending.Push(toState)
+				}
+			})
+		}
+	}
+	return owner
+}
+
+// nonGreedyRuleComplete reports whether the state completes a rule that is
+// inside one of its own non-greedy repetitions. Only then must the state
+// machine stop: a non-greedy repetition cuts short the rule it is written in,
+// not the other rules of the mode that happen to accept along the way.
+func nonGreedyRuleComplete(owner map[*nfa.State]int, state *dfa.State) bool {
+	var nonGreedyRules set.Set[int]
+	for _, nstate := range state.NFAStates {
+		if nstate.NonGreedy {
+			nonGreedyRules.Add(owner[nstate])
+		}
+	}
+	for _, nstate := range state.NFAStates {
+		if nstate.Accept && nonGreedyRules.Has(owner[nstate]) {
+			return true
+		}
+	}
+	return false
 }
 
 func (m *ModeBuilder) pickAction(
